@@ -28,8 +28,8 @@ LEVEL = {
          'panics inside user closures/Clone/Drop are modelled as oracle decisions; abort-on-double-panic is not modelled'),
  'C11': ('Theorems that the model\'s guard-list rule is exactly RefCell\'s flag discipline (panic iff refused, independence of other cells, shared/shared, release restores, closure guards end with the call, clone rule); the table of which cells each runtime-borrowed API acquires and for how long is compared with the implementation on the whole finite (outer, inner) access matrix (exhaustive) and on random nestings to depth 3 with panics',
          'std::cell::RefCell itself is trusted; the acquisition table is hand-written and tied by the exhaustive differential run'),
- 'C12': ('Theorems: with_capacity exact and panics iff > 2^24; create outcome classification with the translated growth formula; create_within_capacity iff len < capacity with capacity unchanged; invariant accounts len <= cap <= 2^24 and free-list length cap - len',
-         'the real 2^24 fill is thorough-tier only'),
+ 'C12': ('Theorems: with_capacity exact and panics iff > 2^24; create outcome classification with the translated growth formula; create_within_capacity iff len < capacity with capacity unchanged; invariant accounts len <= cap <= 2^24 and free-list length cap - len; the translated growth formula iterated from 0 reaches exactly 2^24; on every run the implementation is filled to 16,777,216 entities until create panics and its capacity sequence is compared with the model\'s',
+         'the fill uses one archetype with a u8 component; 2^32 real cycles of one slot are not run (preset hook instead)'),
  'C13': ('Theorem that the clone of an invariant storage is the identical state (with the translated loop bounds); clone audit: identical len/dump/rows/events of original and clone right after cloning, then diverging histories',
          'aliasing between allocations is not expressible in the model (functional values)'),
  'C15': ('Theorems: a successful DataWorld::new yields ids equal to the enum-discriminant rule over the cfg-enabled items, pairwise distinct per scope, implicit ids below 256, and the two failure modes are genuine; first id and successor translated from data.rs; generated declarations (explicit ids ascending, descending, colliding, at 254/255) through the real DataWorld::new',
